@@ -1,32 +1,610 @@
 package main
 
-import (
-	"fmt"
-	"os"
+// codecord: enumerates the real order-preserving codec (rockredis.EncodeMemCmpKey / Decode)
+// and the real key encoders (through rockredis/verif_export_scan.go) over small adversarial
+// alphabets and records, per case, the abstract tuple, its encoding and what decoding the
+// encoding gives back.  spec/ZCodecOrdTrace.tla (TLC) evaluates round trip, order
+// preservation, injectivity and range containment on every line; this driver only
+// enumerates (cases are emitted in ascending order so that checking neighbours covers all
+// pairs by transitivity - TLC checks that the enumeration really is ascending in ITS order).
 
-	"github.com/youzan/ZanRedisDB/common"
+import (
+	"flag"
+	"fmt"
+	"math"
+	"math/rand"
+	"sort"
+	"strings"
+
+	"github.com/youzan/ZanRedisDB/rockredis"
+	"zrverif/trace"
 )
 
-func init() { commands["probe"] = probe }
+func init() { commands["codecord"] = codecord }
 
-func probe(args []string) error {
-	wd, err := scnOpen("pebble", common.LocalDeletion, os.Getenv("ZR_SCRATCH"))
+// ascending pools; a value is logged by its rank (index); -0 and +0 share a rank
+var codInts = []int64{math.MinInt64, math.MinInt64 + 1, -1 << 32, -256, -1, 0, 1, 57, 58, 59, 255, 256, 1 << 32, math.MaxInt64 - 1, math.MaxInt64}
+var codFloats = []float64{math.Inf(-1), -math.MaxFloat64, -1e300, -1.5, -1, -math.SmallestNonzeroFloat64, math.Copysign(0, -1), 0,
+	math.SmallestNonzeroFloat64, 1, 1.5, 1e300, math.MaxFloat64, math.Inf(1)}
+
+func codFloatRank(f float64) int {
+	for i, x := range codFloats {
+		if x == f { // -0 == +0: both get the rank of the first of the two
+			return i
+		}
+	}
+	return -1
+}
+func codIntRank(v int64) int {
+	for i, x := range codInts {
+		if x == v {
+			return i
+		}
+	}
+	return -1
+}
+
+type codComp []int // <<kind, payload...>>
+type codTuple []codComp
+
+func codBytes(b []byte) codComp {
+	c := make(codComp, 0, len(b)+1)
+	c = append(c, 1)
+	for _, x := range b {
+		c = append(c, int(x))
+	}
+	return c
+}
+func codRaw(b []byte) []int {
+	c := make([]int, len(b))
+	for i, x := range b {
+		c[i] = int(x)
+	}
+	return c
+}
+
+// abstract view of a decoded value
+func codAbstract(vals []interface{}) codTuple {
+	out := codTuple{}
+	for _, v := range vals {
+		switch x := v.(type) {
+		case nil:
+			out = append(out, codComp{0})
+		case []byte:
+			out = append(out, codBytes(x))
+		case int64:
+			out = append(out, codComp{3, codIntRank(x)})
+		case float64:
+			out = append(out, codComp{5, codFloatRank(x)})
+		default:
+			out = append(out, codComp{-1})
+		}
+	}
+	return out
+}
+
+// the driver's own ordering of abstract tuples is used ONLY to emit cases in a useful
+// order; TLC re-derives the order with its own definition
+func codLess(a, b codTuple) bool {
+	for i := 0; i < len(a) && i < len(b); i++ {
+		x, y := a[i], b[i]
+		for j := 0; j < len(x) && j < len(y); j++ {
+			if x[j] != y[j] {
+				return x[j] < y[j]
+			}
+		}
+		if len(x) != len(y) {
+			return len(x) < len(y)
+		}
+	}
+	return len(a) < len(b)
+}
+
+type codDrv struct {
+	tw                            *trace.Writer
+	nTup, nKey, nRng, nPair, nFam int
+	byFam                         map[string]int
+	maxLen                        int
+}
+
+func (d *codDrv) family(name string) {
+	d.tw.Emit(trace.M{"ev": "reset", "family": name})
+	d.nFam++
+}
+
+// one case of the bare codec: vals -> EncodeMemCmpKey -> Decode
+func (d *codDrv) tup(fam string, vals []interface{}, chain bool) ([]interface{}, []byte) {
+	x := codAbstract(vals)
+	enc, err := rockredis.EncodeMemCmpKey(nil, vals...)
+	derr := ""
+	dec := codTuple{}
 	if err != nil {
-		return err
+		derr = "enc: " + err.Error()
+	} else {
+		func() {
+			defer func() {
+				if e := recover(); e != nil {
+					derr = fmt.Sprintf("PANIC: %v", e)
+				}
+			}()
+			dv, e := rockredis.Decode(enc, len(vals))
+			if e != nil {
+				derr = e.Error()
+				return
+			}
+			dec = codAbstract(dv)
+		}()
 	}
-	defer wd.close()
-	for i := 0; i < 131; i++ {
-		r := wd.apply("hset", "\xff:h", fmt.Sprintf("f%03d", i), "v")
-		if e, ok := r.(error); ok {
-			fmt.Println("hset", i, "->", e)
+	d.tw.Emit(trace.M{"ev": "tup", "x": x, "enc": codRaw(enc), "dec": dec, "derr": derr, "ch": chain})
+	d.nTup++
+	d.byFam[fam]++
+	if len(enc) > d.maxLen {
+		d.maxLen = len(enc)
+	}
+	return vals, enc
+}
+
+// sorted, de-duplicated emission of a family of value tuples as one ascending chain
+func (d *codDrv) chain(fam string, cases [][]interface{}) {
+	sort.SliceStable(cases, func(i, j int) bool { return codLess(codAbstract(cases[i]), codAbstract(cases[j])) })
+	d.family(fam)
+	for i, c := range cases {
+		d.tup(fam, c, i > 0)
+	}
+}
+
+// all byte strings over alpha of length <= maxLen, in lexicographic order
+func codStrings(alpha []byte, maxLen int) [][]byte {
+	var out [][]byte
+	var rec func(p []byte)
+	rec = func(p []byte) {
+		out = append(out, append([]byte{}, p...))
+		if len(p) == maxLen {
+			return
+		}
+		for _, a := range alpha {
+			rec(append(p, a))
 		}
 	}
-	for i := 0; i < 131; i++ {
-		r := wd.apply("sadd", "ok:h", fmt.Sprintf("f%03d", i))
-		if e, ok := r.(error); ok {
-			fmt.Println("sadd", i, "->", e)
+	rec(nil)
+	return out
+}
+
+// strings around the 8-byte group boundaries: a run of one byte of length b followed by
+// every suffix of length <= 2
+func codBoundary(alpha []byte, bases []int) [][]byte {
+	seen := map[string]bool{}
+	var out [][]byte
+	for _, b := range bases {
+		for _, a := range alpha {
+			for _, suf := range codStrings(alpha, 2) {
+				s := string(append([]byte(strings.Repeat(string([]byte{a}), b)), suf...))
+				if !seen[s] {
+					seen[s] = true
+					out = append(out, []byte(s))
+				}
+			}
 		}
 	}
-	fmt.Println("panics", wd.panics)
+	return out
+}
+
+// ------------------------------------------------------------- key encoder families
+
+type codRange struct {
+	id          int
+	start, stop []byte
+	closed      bool
+}
+
+func (d *codDrv) rng(r codRange) {
+	d.tw.Emit(trace.M{"ev": "rng", "id": r.id, "start": codRaw(r.start), "stop": codRaw(r.stop), "closed": r.closed})
+	d.nRng++
+}
+
+func (d *codDrv) key(fam string, x codTuple, enc []byte, dec codTuple, derr string, chain bool, own []int) {
+	if dec == nil {
+		dec = codTuple{}
+	}
+	d.tw.Emit(trace.M{"ev": "key", "x": x, "enc": codRaw(enc), "dec": dec, "derr": derr, "ch": chain, "own": own})
+	d.nKey++
+	d.byFam[fam]++
+	if len(enc) > d.maxLen {
+		d.maxLen = len(enc)
+	}
+}
+
+func errS(err error) string {
+	if err == nil {
+		return ""
+	}
+	return err.Error()
+}
+
+var codTabs = []string{"a", "a\x00", "ab", "\x00\x01", "\x01", "a;", "b", strings.Repeat("T", 255)}
+var codKeys = []string{"b", "b:c", "b\x00", "\x00\x01", "\x01", "b;", ":", strings.Repeat("k", 8), strings.Repeat("k", 9)}
+var codSubs = []string{"", "c", ":", ":c", "\x00", "\x00\x00", "\xff", ";", strings.Repeat("s", 8)}
+
+// collection families: hash / set / zset member keys, zset score keys, list, bitmap.
+// versioned = the key segment is the wait-compact version key (key, version)
+func (d *codDrv) collFamily(dt byte, name string, tabs, keys, subs []string, versioned bool) {
+	d.family(name)
+	type coll struct {
+		t, k  string
+		ver   int64
+		id    int
+		tabID int
+	}
+	var colls []coll
+	id := 0
+	tabID := map[string]int{}
+	for _, t := range tabs {
+		id++
+		tabID[t] = id
+		s, e := rockredis.VerifScanTableStartEnd(dt, []byte(t))
+		d.rng(codRange{id: id, start: s, stop: e})
+	}
+	vers := []int64{0}
+	if versioned {
+		vers = []int64{1, 256}
+	}
+	for _, t := range tabs {
+		for _, k := range keys {
+			for _, v := range vers {
+				id++
+				colls = append(colls, coll{t: t, k: k, ver: v, id: id, tabID: tabID[t]})
+			}
+		}
+	}
+	seg := func(c coll) []byte {
+		if versioned {
+			return rockredis.VerifCodecVerKey([]byte(c.k), c.ver)
+		}
+		return []byte(c.k)
+	}
+	for _, c := range colls {
+		s, e, err := rockredis.VerifScanCollRange(dt, []byte(c.t), seg(c))
+		if err != nil {
+			continue
+		}
+		d.rng(codRange{id: c.id, start: s, stop: e, closed: dt == rockredis.ListType})
+	}
+	lmin, lmax, lini := rockredis.VerifScanListSeqBounds()
+	seqs := []int64{lmin, lmin + 1, lini - 1, lini, lini + 1, lmax - 1, lmax}
+	idxs := []int64{0, 1024, 2048, 1 << 20}
+	for _, c := range colls {
+		t, k := []byte(c.t), seg(c)
+		base := codTuple{codBytes(t), codBytes(k)}
+		own := []int{c.tabID, c.id}
+		first := true
+		switch dt {
+		case rockredis.HashType, rockredis.SetType, rockredis.ZSetType:
+			ss := append([]string{}, subs...)
+			sort.Strings(ss)
+			for _, s := range ss {
+				enc := rockredis.VerifScanCollSubKey(dt, t, k, []byte(s))
+				dt2, dk, dsub, err := rockredis.VerifScanDecCollSubKey(dt, enc)
+				d.key(name, append(append(codTuple{}, base...), codBytes([]byte(s))), enc,
+					codTuple{codBytes(dt2), codBytes(dk), codBytes(dsub)}, errS(err), !first, own)
+				first = false
+			}
+		case rockredis.ZScoreType:
+			ss := append([]string{}, subs...)
+			sort.Strings(ss)
+			for _, f := range codFloats {
+				if math.IsInf(f, 0) || (f == 0 && math.Signbit(f)) {
+					continue // -0 has the rank of +0 (covered by the bare codec families)
+				}
+				for _, s := range ss {
+					enc := rockredis.VerifScanZScoreKey(t, k, []byte(s), f)
+					dt2, dk, dm, ds, err := rockredis.VerifScanDecZScoreKey(enc)
+					d.key(name, append(append(codTuple{}, base...), codComp{5, codFloatRank(f)}, codBytes([]byte(s))), enc,
+						codTuple{codBytes(dt2), codBytes(dk), codComp{5, codFloatRank(ds)}, codBytes(dm)}, errS(err), !first, own)
+					first = false
+				}
+			}
+		case rockredis.ListType:
+			for i, s := range seqs {
+				enc := rockredis.VerifScanListKey(t, k, s)
+				dt2, dk, dseq, err := rockredis.VerifScanDecListKey(enc)
+				di := -1
+				for j, x := range seqs {
+					if x == dseq {
+						di = j
+					}
+				}
+				d.key(name, append(append(codTuple{}, base...), codComp{3, i}), enc,
+					codTuple{codBytes(dt2), codBytes(dk), codComp{3, di}}, errS(err), !first, own)
+				first = false
+			}
+		case rockredis.BitmapType:
+			for i, ix := range idxs {
+				enc, err := rockredis.VerifScanBitmapKey(t, k, ix)
+				if err != nil {
+					continue
+				}
+				dt2, dk, dix, err := rockredis.VerifScanDecBitmapKey(enc)
+				di := -1
+				for j, x := range idxs {
+					if x == dix {
+						di = j
+					}
+				}
+				d.key(name, append(append(codTuple{}, base...), codComp{3, i}), enc,
+					codTuple{codBytes(dt2), codBytes(dk), codComp{3, di}}, errS(err), !first, own)
+				first = false
+			}
+		}
+	}
+}
+
+// kv keys and per-type meta keys: ordered by the raw "table:key"; the whole-table delete /
+// scan range of a table must contain exactly that table's keys
+func (d *codDrv) metaFamily(dt byte, name string, tabs, keys []string) {
+	d.family(name)
+	st, err := rockredis.VerifScanStoreType(dt)
+	if err != nil {
+		return
+	}
+	tabID := map[string]int{}
+	for i, t := range tabs {
+		tabID[t] = i + 1
+		_, mn, mx, err := rockredis.VerifScanTableDeleteRanges(dt, st, []byte(t))
+		if err != nil {
+			continue
+		}
+		d.rng(codRange{id: i + 1, start: mn, stop: mx})
+	}
+	type rk struct{ raw, t string }
+	var all []rk
+	for _, t := range tabs {
+		for _, k := range keys {
+			all = append(all, rk{t + ":" + k, t})
+		}
+	}
+	sort.Slice(all, func(i, j int) bool { return all[i].raw < all[j].raw })
+	for i, r := range all {
+		enc, err := rockredis.VerifScanMetaKey(dt, []byte(r.raw))
+		derr := errS(err)
+		var dec codTuple
+		if err == nil {
+			dk, e := rockredis.VerifScanDecMetaKey(st, enc)
+			derr = errS(e)
+			dec = codTuple{codBytes(dk)}
+		}
+		d.key(name, codTuple{codBytes([]byte(r.raw))}, enc, dec, derr, i > 0, []int{tabID[r.t]})
+	}
+}
+
+// the data ranges a whole-table delete removes must contain exactly the table's element keys
+func (d *codDrv) tableDeleteFamily(dt byte, metaType byte, name string, tabs, keys, subs []string) {
+	d.family(name)
+	tabID := map[string]int{}
+	id := 0
+	for _, t := range tabs {
+		data, _, _, err := rockredis.VerifScanTableDeleteRanges(dt, metaType, []byte(t))
+		if err != nil {
+			continue
+		}
+		// the first data range is the one of dt's element keys
+		id++
+		tabID[t] = id
+		d.rng(codRange{id: id, start: data[0].Start, stop: data[0].Limit})
+	}
+	for _, t := range tabs {
+		for _, k := range keys {
+			for _, s := range subs {
+				var enc []byte
+				switch dt {
+				case rockredis.ListType:
+					_, _, ini := rockredis.VerifScanListSeqBounds()
+					enc = rockredis.VerifScanListKey([]byte(t), []byte(k), ini+int64(len(s)))
+				default:
+					enc = rockredis.VerifScanCollSubKey(dt, []byte(t), []byte(k), []byte(s))
+				}
+				x := codTuple{codBytes([]byte(t)), codBytes([]byte(k)), codBytes([]byte(s))}
+				d.key(name, x, enc, x, "", false, []int{tabID[t]})
+			}
+		}
+	}
+}
+
+// secondary hash-index keys: [index type][tlen]table:[nlen]name:memcmp(value, sep, pk).  Ranges:
+// all keys of one (table, index) and all keys of one (table, index, value)
+func (d *codDrv) indexFamily(name string, number bool, tabs, names, pks []string) {
+	d.family(name)
+	svals := []string{"", "\x00", "a", "a\x00", "aaaaaaaa", "aaaaaaaaa", "b", "\xff"}
+	ivals := []int64{codInts[0], -1, 0, 1, 58, 256, codInts[len(codInts)-1]}
+	nv := len(svals)
+	if number {
+		nv = len(ivals)
+	}
+	enc := func(t, n string, vi int, pk []byte, stop bool) ([]byte, error) {
+		if number {
+			return rockredis.VerifCodecHsetIndexNumberKey([]byte(t), []byte(n), ivals[vi], pk, stop)
+		}
+		return rockredis.VerifCodecHsetIndexStringKey([]byte(t), []byte(n), []byte(svals[vi]), pk, stop)
+	}
+	valComp := func(vi int) codComp {
+		if number {
+			return codComp{3, codIntRank(ivals[vi])}
+		}
+		return codBytes([]byte(svals[vi]))
+	}
+	id := 0
+	idxID := map[string]int{}
+	valID := map[string]int{}
+	for _, t := range tabs {
+		for _, n := range names {
+			id++
+			idxID[t+"\x00|"+n] = id
+			s, e := rockredis.VerifCodecHsetIndexRange([]byte(t), []byte(n))
+			d.rng(codRange{id: id, start: s, stop: e})
+			for vi := 0; vi < nv; vi++ {
+				s, err1 := enc(t, n, vi, nil, false)
+				e, err2 := enc(t, n, vi, nil, true)
+				if err1 != nil || err2 != nil {
+					continue
+				}
+				id++
+				valID[fmt.Sprintf("%s\x00|%s\x00|%d", t, n, vi)] = id
+				d.rng(codRange{id: id, start: s, stop: e})
+			}
+		}
+	}
+	sp := append([]string{}, pks...)
+	sort.Strings(sp)
+	for _, t := range tabs {
+		for _, n := range names {
+			first := true
+			for vi := 0; vi < nv; vi++ {
+				for _, pk := range sp {
+					ek, err := enc(t, n, vi, []byte(pk), false)
+					if err != nil {
+						continue
+					}
+					x := codTuple{codBytes([]byte(t)), codBytes([]byte(n)), valComp(vi), codBytes([]byte(pk))}
+					var dec codTuple
+					derr := ""
+					if number {
+						dt, dn, dv, dpk, e := rockredis.VerifCodecDecHsetIndexNumberKey(ek)
+						derr = errS(e)
+						dec = codTuple{codBytes(dt), codBytes(dn), codComp{3, codIntRank(dv)}, codBytes(dpk)}
+					} else {
+						dt, dn, dv, dpk, e := rockredis.VerifCodecDecHsetIndexStringKey(ek)
+						derr = errS(e)
+						dec = codTuple{codBytes(dt), codBytes(dn), codBytes(dv), codBytes(dpk)}
+					}
+					d.key(name, x, ek, dec, derr, !first, []int{idxID[t+"\x00|"+n], valID[fmt.Sprintf("%s\x00|%s\x00|%d", t, n, vi)]})
+					first = false
+				}
+			}
+		}
+	}
+}
+
+func codecord(args []string) error {
+	fs := flag.NewFlagSet("codecord", flag.ExitOnError)
+	outp := fs.String("o", "codec", "output prefix; parts are <prefix>.<i>.ndjson")
+	maxLen := fs.Int("maxlen", 6, "exhaustive byte strings over {00,01,ff} up to this length")
+	bmax := fs.Int("bmax", 9, "boundary family: runs up to this length (8-byte groups: 9 / 17)")
+	npairs := fs.Int("pairs", 2000, "extra random non-adjacent pairs")
+	seed := fs.Int64("seed", 1, "")
+	fs.Parse(args)
+	rng := rand.New(rand.NewSource(*seed))
+	mk := func(i int) *codDrv {
+		tw, err := trace.Create(fmt.Sprintf("%s.%d.ndjson", *outp, i))
+		if err != nil {
+			panic(err)
+		}
+		return &codDrv{tw: tw, byFam: map[string]int{}}
+	}
+	alpha := []byte{0x00, 0x01, 0xff}
+
+	// part 0: the bare codec
+	d := mk(0)
+	var bs [][]interface{}
+	for _, s := range codStrings(alpha, *maxLen) {
+		bs = append(bs, []interface{}{s})
+	}
+	d.chain("bytes-exhaustive", bs)
+	var bases []int
+	for b := 6; b <= *bmax; b++ {
+		if b%8 >= 6 || b%8 <= 1 {
+			bases = append(bases, b)
+		}
+	}
+	bs = nil
+	bstr := codBoundary(alpha, bases)
+	for _, s := range bstr {
+		bs = append(bs, []interface{}{s})
+	}
+	d.chain("bytes-group-boundary", bs)
+	var is, fl [][]interface{}
+	for _, v := range codInts {
+		is = append(is, []interface{}{v})
+	}
+	d.chain("ints", is)
+	for _, f := range codFloats {
+		fl = append(fl, []interface{}{f})
+	}
+	d.chain("floats", fl)
+	// composite shapes as the data mapping uses them
+	ckeys := [][]byte{{}, {0}, []byte("a"), []byte("a\x00"), []byte("aaaaaaaa"), []byte("aaaaaaaa\x00"), []byte("aaaaaaaaa"), {0xff}}
+	cmem := [][]byte{{}, {0}, []byte("m"), {0xff}}
+	var zs, vk, bm, mixed [][]interface{}
+	for _, k := range ckeys {
+		for _, sep := range []int64{57, 58, 59} {
+			for _, f := range []float64{-1.5, math.Copysign(0, -1), 0, 1, 1e300} {
+				for _, sep2 := range []int64{58, 59} {
+					for _, m := range cmem {
+						zs = append(zs, []interface{}{k, sep, f, sep2, m})
+					}
+				}
+			}
+			for _, v := range []int64{0, 1, 256, 1 << 32, math.MaxInt64} {
+				vk = append(vk, []interface{}{k, sep, v, sep})
+				bm = append(bm, []interface{}{k, sep, v})
+			}
+		}
+		mixed = append(mixed, []interface{}{k}, []interface{}{k, nil}, []interface{}{k, int64(0)}, []interface{}{k, float64(1)},
+			[]interface{}{k, []byte{}}, []interface{}{nil, k}, []interface{}{int64(1), k}, []interface{}{float64(0), k})
+	}
+	d.chain("zscore-shape(bytes,int,float,int,bytes)", zs)
+	d.chain("verkey-shape(bytes,int,int,int)", vk)
+	d.chain("bitmap-shape(bytes,int,int)", bm)
+	d.chain("mixed-shapes", mixed)
+	// random non-adjacent pairs over everything above
+	d.family("random-pairs")
+	all := append(append(append(append([][]interface{}{}, zs...), vk...), mixed...), fl...)
+	for _, s := range bstr {
+		all = append(all, []interface{}{s})
+	}
+	for i := 0; i < *npairs; i++ {
+		a, b := all[rng.Intn(len(all))], all[rng.Intn(len(all))]
+		ea, _ := rockredis.EncodeMemCmpKey(nil, a...)
+		eb, _ := rockredis.EncodeMemCmpKey(nil, b...)
+		d.tw.Emit(trace.M{"ev": "pair", "xa": codAbstract(a), "ea": codRaw(ea), "xb": codAbstract(b), "eb": codRaw(eb)})
+		d.nPair++
+	}
+	d.tw.Close()
+
+	// part 1: the key encoders
+	e := mk(1)
+	small := codTabs[:7]
+	e.collFamily(rockredis.HashType, "hash-keys", codTabs, codKeys, codSubs, false)
+	e.collFamily(rockredis.SetType, "set-keys", small, codKeys, codSubs, false)
+	e.collFamily(rockredis.ZSetType, "zset-member-keys", small, codKeys, codSubs, false)
+	e.collFamily(rockredis.ZScoreType, "zset-score-keys", small[:5], codKeys[:6], codSubs[:6], false)
+	e.collFamily(rockredis.ListType, "list-keys", small, codKeys, nil, false)
+	e.collFamily(rockredis.BitmapType, "bitmap-keys", small, codKeys, nil, false)
+	e.collFamily(rockredis.HashType, "hash-keys-versioned", small[:5], codKeys[:6], codSubs[:6], true)
+	e.collFamily(rockredis.ZScoreType, "zset-score-keys-versioned", small[:4], codKeys[:4], codSubs[:4], true)
+	e.collFamily(rockredis.ListType, "list-keys-versioned", small[:5], codKeys[:6], nil, true)
+	for _, dt := range []byte{rockredis.KVType, rockredis.HashType, rockredis.ListType, rockredis.SetType, rockredis.ZSetType} {
+		e.metaFamily(dt, "meta-keys-"+rockredis.TypeName[dt], codTabs, codKeys)
+	}
+	inames := []string{"f", "f:", "f\x00", "fg", "\x00\x01"}
+	e.indexFamily("hash-index-string-keys", false, small, inames, codKeys[:6])
+	e.indexFamily("hash-index-number-keys", true, small, inames, codKeys[:6])
+	e.tableDeleteFamily(rockredis.HashType, rockredis.HSizeType, "table-delete-range-hash", small, codKeys, codSubs[:5])
+	e.tableDeleteFamily(rockredis.SetType, rockredis.SSizeType, "table-delete-range-set", small, codKeys, codSubs[:5])
+	e.tableDeleteFamily(rockredis.ZSetType, rockredis.ZSizeType, "table-delete-range-zset", small, codKeys, codSubs[:5])
+	e.tableDeleteFamily(rockredis.ListType, rockredis.LMetaType, "table-delete-range-list", small, codKeys, codSubs[:3])
+	e.tw.Close()
+
+	fam := map[string]int{}
+	for k, v := range d.byFam {
+		fam[k] = v
+	}
+	for k, v := range e.byFam {
+		fam[k] = v
+	}
+	ml := d.maxLen
+	if e.maxLen > ml {
+		ml = e.maxLen
+	}
+	summary(trace.M{"driver": "codecord", "codec_tuples": d.nTup, "pairs": d.nPair, "storage_keys": e.nKey, "ranges": e.nRng,
+		"families": d.nFam + e.nFam, "by_family": fam, "maxlen": *maxLen, "bmax": *bmax, "longest_encoding": ml})
 	return nil
 }
